@@ -123,8 +123,9 @@ func (c nullFloatCodec) Omit(ptr unsafe.Pointer) bool {
 }
 
 func (c nullFloatCodec) Size(ptr unsafe.Pointer, tag []byte) (size int) {
-	nf := (*null.Float)(ptr)
-	return c.Float64Codec.Size(unsafe.Pointer(&nf.Float64), tag)
+	// The size does not depend on the value, and slice wrappers ask for the
+	// element size with a nil pointer: do not reach through ptr.
+	return c.Float64Codec.Size(ptr, tag)
 }
 
 func (c nullFloatCodec) Append(data []byte, ptr unsafe.Pointer, tag []byte) []byte {
